@@ -257,6 +257,13 @@ func c14(ctx *Ctx) (*Outcome, error) {
 	for i := 0; i < ctx.N(36, 144); i++ {
 		cases = append(cases, collisionTripleCase(i, sg.NewRng(ctx.Seed, fmt.Sprintf("C14-triple-%d", i))))
 	}
+	for i := 0; i < ctx.N(32, 160); i++ {
+		c := internalNameCase(i, sg.NewRng(ctx.Seed, fmt.Sprintf("C14-internal-%d", i)))
+		if i%3 == 0 {
+			c.Args = append(c.Args, "--extra-imports")
+		}
+		cases = append(cases, c)
+	}
 	// pinned witness of the recorded finding name-breaks-tag
 	for _, hn := range hazard {
 		root := &sg.Schema{Types: []string{"object"}, Props: []sg.Prop{{Name: hn, S: &sg.Schema{Types: []string{"string"}}}, {Name: "plain", S: &sg.Schema{Types: []string{"integer"}}}}}
